@@ -18,9 +18,9 @@ let hexval c =
   | _ -> failwith "bad hex digit"
 
 (* hex string -> N *)
-let n_of_hex (s : string) : n =
+let n_of_hex (s : Stdlib.String.t) : n =
   let bits = ref [] in
-  String.iter (fun c ->
+  Stdlib.String.iter (fun c ->
       let v = hexval c in
       bits := (v land 1 <> 0) :: (v land 2 <> 0) :: (v land 4 <> 0) :: (v land 8 <> 0) :: !bits) s;
   (* !bits is LSB first; reverse to MSB first and strip leading zeros *)
@@ -37,7 +37,7 @@ let rec bits_of_pos (p : positive) (acc : bool list) : bool list =
   | XO q -> bits_of_pos q (false :: acc)
   | XI q -> bits_of_pos q (true :: acc)
 
-let hex_of_pos (p : positive) : string =
+let hex_of_pos (p : positive) : Stdlib.String.t =
   let msb = bits_of_pos p [] in
   let l = List.length msb in
   let pad = (4 - (l mod 4)) mod 4 in
@@ -56,7 +56,7 @@ let hex_of_pos (p : positive) : string =
   go bits;
   Buffer.contents buf
 
-let hex_of_n (x : n) : string = match x with N0 -> "0" | Npos p -> hex_of_pos p
+let hex_of_n (x : n) : Stdlib.String.t = match x with N0 -> "0" | Npos p -> hex_of_pos p
 
 let int_of_n (x : n) : int =
   match x with
@@ -65,25 +65,25 @@ let int_of_n (x : n) : int =
     let rec go p = match p with XH -> 1 | XO q -> 2 * go q | XI q -> 2 * go q + 1 in
     go p
 
-let bytes_of_hex (s : string) : byte list =
-  let n = String.length s / 2 in
+let bytes_of_hex (s : Stdlib.String.t) : byte list =
+  let n = Stdlib.String.length s / 2 in
   let rec go i acc =
     if i < 0 then acc
     else go (i - 1) (byte_table.(hexval s.[2 * i] * 16 + hexval s.[2 * i + 1]) :: acc)
   in
   go (n - 1) []
 
-let hex_of_bytes (bs : byte list) : string =
+let hex_of_bytes (bs : byte list) : Stdlib.String.t =
   let buf = Buffer.create 64 in
   List.iter (fun b -> Buffer.add_string buf (Printf.sprintf "%02x" (int_of_n (b2n b)))) bs;
   Buffer.contents buf
 
-let tok_of_string (s : string) : wtok =
-  let body = String.sub s 1 (String.length s - 1) in
+let tok_of_string (s : Stdlib.String.t) : wtok =
+  let body = Stdlib.String.sub s 1 (String.length s - 1) in
   match s.[0] with
   | 'n' -> WN (n_of_hex body)
   | 'z' ->
-    if String.length body > 0 && body.[0] = '-' then
+    if Stdlib.String.length body > 0 && body.[0] = '-' then
       (match n_of_hex (String.sub body 1 (String.length body - 1)) with
        | N0 -> WZ Z0
        | Npos p -> WZ (Zneg p))
@@ -91,7 +91,7 @@ let tok_of_string (s : string) : wtok =
   | 'x' -> WB (bytes_of_hex body)
   | _ -> failwith ("bad token " ^ s)
 
-let string_of_tok (t : wtok) : string =
+let string_of_tok (t : wtok) : Stdlib.String.t =
   match t with
   | WN x -> "n" ^ hex_of_n x
   | WZ Z0 -> "z0"
@@ -105,14 +105,14 @@ let () =
   (try
      while true do
        let line = input_line ic in
-       if String.length line > 0 && line.[0] <> '#' then begin
-         match String.split_on_char ' ' line |> List.filter (fun s -> s <> "") with
+       if Stdlib.String.length line > 0 && line.[0] <> '#' then begin
+         match Stdlib.String.split_on_char ' ' line |> List.filter (fun s -> s <> "") with
          | [] -> ()
          | op :: toks ->
            let res =
              try
                let r = run_case (n_of_hex (Printf.sprintf "%x" (int_of_string op))) (List.map tok_of_string toks) in
-               String.concat " " (List.map string_of_tok r)
+               Stdlib.String.concat " " (List.map string_of_tok r)
              with Stack_overflow -> "STACK_OVERFLOW"
            in
            Buffer.add_string out res;
